@@ -27,6 +27,7 @@ import (
 	"github.com/semihalev/sdns/config"
 	"github.com/semihalev/sdns/internal/authority"
 	"github.com/semihalev/sdns/internal/cache"
+	"github.com/semihalev/sdns/internal/dnsutil"
 	"github.com/semihalev/sdns/internal/mock"
 	"github.com/semihalev/sdns/middleware"
 	cachemw "github.com/semihalev/sdns/middleware/cache"
@@ -126,6 +127,9 @@ const (
 	vC08RespJunk     = 3 // a referral the server has no business sending (self / upward / sideways)
 )
 
+// vC08BareNegTTL: the message TTL (s) the answer cache gives a reply without any record (dnsutil.MinCacheTTL)
+var vC08BareNegTTL = uint32(dnsutil.MinCacheTTL / time.Second)
+
 type vC08Deleg struct {
 	nsTTL  []uint32 // TTL of each NS record in the referral (coherent RRset)
 	target int      // server id the glue points to
@@ -163,6 +167,9 @@ type vC08Srv struct {
 	cnameTo  string
 	aliasTTL uint32
 	allExist bool // every name in the zone exists (a re-pointed zone with other content)
+	// shape of the zone's own denials: false = the SOA-carrying form (RFC 2308), true = "bare": the rcode (NXDOMAIN /
+	// NOERROR) and nothing else - no SOA, empty authority section - as minimal or broken authoritative servers send it
+	bareNeg bool
 }
 
 type vC08World struct {
@@ -256,6 +263,15 @@ func (w *vC08World) answer(s *vC08Srv, r *dns.Msg) *dns.Msg {
 		ent.ansTTL = s.negTTL
 		return reply
 	}
+	// the zone's own denial of a name or type (not the parent-side NXDOMAIN of a withdrawn delegation, not DS)
+	ownNeg := func(rcode int) *dns.Msg {
+		m := neg(rcode)
+		if s.bareNeg {
+			m.Ns = nil
+			ent.ansTTL = vC08BareNegTTL
+		}
+		return m
+	}
 	if name == "." && q.Qtype == dns.TypeNS && s.zone == "." {
 		reply.Authoritative = true
 		reply.Answer = []dns.RR{&dns.NS{Hdr: dns.RR_Header{Name: ".", Rrtype: dns.TypeNS, Class: dns.ClassINET, Ttl: 3600}, Ns: "ns.root."}}
@@ -347,7 +363,7 @@ func (w *vC08World) answer(s *vC08Srv, r *dns.Msg) *dns.Msg {
 	}
 	exists := name == s.zone || strings.HasPrefix(first, "w") || strings.HasPrefix(first, "ns") || s.allExist
 	if !exists {
-		return neg(dns.RcodeNameError)
+		return ownNeg(dns.RcodeNameError)
 	}
 	switch {
 	case q.Qtype == dns.TypeA && name != s.zone:
@@ -364,7 +380,7 @@ func (w *vC08World) answer(s *vC08Srv, r *dns.Msg) *dns.Msg {
 		reply.Answer = []dns.RR{&dns.NS{Hdr: dns.RR_Header{Name: s.zone, Rrtype: dns.TypeNS, Class: dns.ClassINET, Ttl: 7 * 86400}, Ns: "ns0." + s.zone}}
 		ent.kind, ent.ansTTL = vC08RespAnswer, 7*86400
 	default:
-		return neg(dns.RcodeSuccess)
+		return ownNeg(dns.RcodeSuccess)
 	}
 	if s.mode == 4 {
 		// the ghost-domain trick: keep re-publishing the zone's own NS set with a
